@@ -63,6 +63,9 @@ func (v *PacketDslFormattor) getHiddenLeft(token antlr.Token) string {
 }
 
 func (v *PacketDslFormattor) getHiddenRightAtSameLine(token antlr.Token) string {
+	if token == nil {
+		return ""
+	}
 	hidden := v.tokenStream.GetHiddenTokensToRight(token.GetTokenIndex(), antlr.TokenHiddenChannel)
 	if hidden == nil {
 		return ""
@@ -177,6 +180,9 @@ func (v *PacketDslFormattor) VisitCalculatedFromAttribute(ctx *gen.CalculatedFro
 
 // VisitPaddingAttribute formats padding attribute
 func (v *PacketDslFormattor) VisitPaddingAttribute(ctx *gen.PaddingAttributeContext) interface{} {
+	if ctx.PADDING_CHAR() == nil {
+		return fmt.Sprintf("%s()", ctx.PADDING_ATTR().GetText())
+	}
 	return fmt.Sprintf("%s(%s)", ctx.PADDING_ATTR().GetText(), ctx.PADDING_CHAR().GetText())
 }
 
